@@ -155,3 +155,9 @@ Check C12_mul_point_sound : forall (PR : PrimeR) (ND : NonSquareD) asg jubjub po
   (asg (fst res), asg (snd res)) = ed_mul (val (asg jubjub)) P /\
   on_curve (asg (fst res), asg (snd res)).
 Print Assumptions C12_mul_point_sound.
+
+(* evidence for the hypothesis NonSquareD: d^((r-1)/2) = -1 (closed computation) *)
+Theorem C12_d_euler_criterion : fpow ed_d (Z.to_N ((r - 1) / 2)) = - (1).
+Proof. exact ed_d_euler. Qed.
+Check C12_d_euler_criterion : fpow ed_d (Z.to_N ((r - 1) / 2)) = - (1).
+Print Assumptions C12_d_euler_criterion.
